@@ -1857,3 +1857,36 @@ def dof_rdm(chk, src, topologies=("ternary", "generic")):
                        detail=f"calc_2dof_rdm({d1}, {d2}) indexes outside the RDM's axes")
                 continue
             decide(f2, f"calc_2dof_rdm [{topo}: {d1},{d2}]", rec, [(n1._name, k1), (n2._name, k2)], [n1.idx, n2.idx])
+
+
+# ---------------------------------------------------------------------------------------------- gauge precondition of the tree compression
+def compress_precondition(chk, src):
+    """TTNS.compress truncates with the centre at the root (compress-sweep rule): every place that compresses a tree state it has just produced
+    (copy, sum, operator application) must canonicalise it first"""
+    chk.rule("compress-gauge", "a tree state produced inside a function is canonicalised before it is compressed", 3)
+    from .. import qn as Q
+    n = 0
+    for rel in (TREE, TEVO, TGS, "renormalizer/tn/utils_eph.py", "renormalizer/mps/lib.py"):
+        for fi in src.funcs_in(rel):
+            if fi.parent is not None:
+                continue
+            order = Q.stmts_in_order(fi.node)
+            for pos, st in enumerate(order):
+                for c in ast.walk(st) if not isinstance(st, (ast.For, ast.While, ast.If, ast.FunctionDef)) else []:
+                    if not (isinstance(c, ast.Call) and isinstance(c.func, ast.Attribute) and c.func.attr == "compress" and isinstance(c.func.value, ast.Name)):
+                        continue
+                    name = c.func.value.id
+                    defs = [p_ for p_, s_ in enumerate(order[:pos]) if isinstance(s_, ast.Assign) and any(isinstance(t, ast.Name) and t.id == name for t in s_.targets)]
+                    if not defs:
+                        continue      # a parameter: the precondition is the caller's
+                    d = defs[-1]
+                    dv = order[d].value
+                    produced_canonical = isinstance(dv, ast.Call) and isinstance(dv.func, ast.Attribute) and dv.func.attr == "canonicalise"
+                    cano = any(isinstance(s_, ast.Expr) and isinstance(s_.value, ast.Call) and unparse(s_.value.func) == f"{name}.canonicalise" for s_ in order[d + 1:pos]) or produced_canonical \
+                        or (isinstance(dv, ast.Call) and "canonicalise" in unparse(dv))
+                    n += 1
+                    chk.ob("compress-gauge", f"{fi.qual}: {name}.compress(...)", cano, fi.where, "no canonicalise() between the creation of the state and its compression" if not cano else "canonicalised first",
+                           f"{name}.canonicalise() before {name}.compress()", line=c.lineno,
+                           detail=f"{fi.qual} compresses `{name}` (= {unparse(dv)[:50]}) without bringing it to canonical form with the centre at the root: the singular values it truncates / returns "
+                                  "are not Schmidt coefficients unless the state happens to be canonical already (fresh random states and optimiser output are)")
+    return n
